@@ -187,7 +187,59 @@ def entry_shard(arg):
     return p
 
 
+UNI_TEMPLATES = ["plain é {{ x }} ü", "{% for c in x %}{{ c }}-{% endfor %}€", "{{ x }}{% block b %}ß{{ x|upper }}{% endblock %}",
+                 "{% macro m(v) %}«{{ v }}»{% endmacro %}{{ m(x) }}{{ m('日本') }}"]
+
+
+def dump_shard(arg):
+    """TemplateStream.dump with every target x encoding x errors x buffering, on templates with non-ASCII output:
+    the written bytes equal render().encode(encoding, errors)"""
+    import jinja2
+
+    p = core.Part()
+    scratch = core.scratch_dir("c10d")
+    for ti, src in enumerate(UNI_TEMPLATES):
+        env = jinja2.Environment()
+        t = env.from_string(src)
+        data = {"x": "añ日"}
+        text = t.render(**data)
+        for enc in ("utf-8", "latin-1", "ascii", "utf-16"):
+            for errors in ("strict", "replace", "ignore", "xmlcharrefreplace", "backslashreplace"):
+                for size in (None, 2, 3):
+                    expect = corpus.outcome(lambda: text.encode(enc, errors))
+                    for target in ("bytesio", "path"):
+                        def run():
+                            s = t.stream(**data)
+                            if size:
+                                s.enable_buffering(size)
+                            if target == "bytesio":
+                                b = io.BytesIO()
+                                s.dump(b, encoding=enc, errors=errors)
+                                return b.getvalue()
+                            path = os.path.join(scratch, "o.bin")
+                            s.dump(path, encoding=enc, errors=errors)
+                            with open(path, "rb") as f:
+                                return f.read()
+                        got = corpus.outcome(run)
+                        if enc == "utf-16" and isinstance(got, bytes) and isinstance(expect, bytes):
+                            # chunk-wise encoding repeats the BOM per chunk: compare the decoded text instead
+                            got = corpus.outcome(lambda: "".join(c for c in got.decode("utf-16", "ignore") if c != "\ufeff"))
+                            exp = text
+                        else:
+                            exp = expect
+                        p.evals += 1
+                        p.sig(("dump", enc, errors, isinstance(exp, tuple)))
+                        if got != exp:
+                            p.violation(f"C10/dump/{target}/{enc}/{errors}", {
+                                "msg": f"{src!r} dump to {target} encoding={enc} errors={errors} buffer={size}: {got!r}, expected {exp!r}",
+                                "script": "print(%r)\n" % {"template": src, "target": target, "encoding": enc, "errors": errors}})
+    p.sample({"part": "dump parameters", "templates": len(UNI_TEMPLATES)}, cap=1)
+    return p
+
+
 def dispatch(arg):
+    if arg[0] == "d":
+        return dump_shard(arg[1])
     return machine_shard(arg[1]) if arg[0] == "m" else entry_shard(arg[1])
 
 
@@ -202,5 +254,6 @@ def run(ctx: core.Ctx):
     shards = [("m", (a, max_ops, max_pieces)) for a in alphabet]
     n = 64
     shards += [("e", (ctx.tier, k, n)) for k in range(n)]
+    shards += [("d", 0)]
     ctx.pmap(dispatch, shards)
     ctx.cov["bounds"] = {"stream_ops": max_ops + 1, "pieces": max_pieces, "corpus": str(corpus.BOUNDS[ctx.tier])}
